@@ -72,6 +72,120 @@ def check(run, prog, tier):
     run.rule("C05-U14", "a units-managed object is not created under the current units from values taken out of raw storage "
                         "(internal units)", minimum=2)
     rule_U14(run, prog)
+    run.rule("C05-U15", "a setter that converts its argument to internal units uses the converted value everywhere it touches the "
+                        "storage: the argument as supplied is neither stored next to the converted value nor compared with it", minimum=10)
+    rule_U15(run, prog)
+    run.rule("C05-U16", "a value read under internal units is not assigned to a units-managed property of the same object outside "
+                        "the internal-units block", minimum=1)
+    rule_U16(run, prog)
+
+
+def rule_U15(run, prog):
+    """A function that converts (part of) a parameter p to internal units - c = self.convert_..._2_internal_u(p) - and stores
+    c into attributes of self has two unit systems in scope: p is in the units current at the call, the attributes that
+    received c are internal.  Storing p itself into one of these attributes (the mirrored element of a symmetric matrix),
+    or comparing p with what is stored there (an 'unchanged, nothing to do' shortcut), mixes the two: correct only when the
+    current units are the internal ones."""
+    from ..loader import parents_map
+    from .. import unitflow
+    rid = "C05-U15"
+    n = 0
+    for f in prog.all_functions():
+        if ".tests." in f.qualname or ".wizard." in f.qualname or not hasattr(f.node, "args"):
+            continue
+        params = {a.arg for a in f.node.args.args} - {"self"}
+        convs = []
+        for st in walk_no_nested(f.node):
+            if isinstance(st, ast.Assign) and isinstance(st.value, ast.Call) and (call_name(st.value) or "").endswith("2_internal_u") \
+                    and st.value.args and isinstance(st.value.args[0], ast.Name) and st.value.args[0].id in params:
+                convs.append(st)
+        if not convs:
+            continue
+        pm = parents_map(f.node)
+        for cst in convs:
+            raw = cst.value.args[0].id
+            ints = {t_.id for t_ in cst.targets if isinstance(t_, ast.Name)}
+            direct = [t_ for t_ in cst.targets if not isinstance(t_, ast.Name)]
+            attrs = set()
+            for st in walk_no_nested(f.node):
+                if isinstance(st, ast.Assign) and ((isinstance(st.value, ast.Name) and st.value.id in ints) or st is cst):
+                    for t_ in st.targets:
+                        b_ = t_
+                        while isinstance(b_, ast.Subscript):
+                            b_ = b_.value
+                        if isinstance(b_, ast.Attribute) and norm(b_.value) == "self":
+                            attrs.add(b_.attr)
+            if not attrs:
+                continue
+            n += 1
+            prog.consulted.add(f.relpath)
+            bad = None
+            for st in walk_no_nested(f.node):
+                if unitflow.in_int_context(pm, st):
+                    continue
+                if isinstance(st, ast.Assign) and isinstance(st.value, ast.Name) and st.value.id == raw:
+                    for t_ in st.targets:
+                        b_ = t_
+                        while isinstance(b_, ast.Subscript):
+                            b_ = b_.value
+                        if isinstance(b_, ast.Attribute) and norm(b_.value) == "self" and b_.attr in attrs:
+                            bad = (st, "stores the argument as supplied (%s) into self.%s, which holds the converted value elsewhere" % (raw, b_.attr))
+                if isinstance(st, ast.Compare):
+                    names = {x.id for x in ast.walk(st) if isinstance(x, ast.Name)}
+                    sattrs = {x.attr for x in ast.walk(st) if isinstance(x, ast.Attribute) and norm(x.value) == "self"}
+                    if raw in names and (sattrs & attrs) and not (ints & names):
+                        bad = (st, "compares the argument as supplied (%s) with self.%s, which is stored in internal units" % (raw, sorted(sattrs & attrs)[0]))
+            run.obligation(rid, f.short, bad is None, key="converted-everywhere:" + raw,
+                           message="%s converts %s to internal units and %s: under a units context other than the internal one the two "
+                                   "numbers differ by the conversion factor" % (f.short, raw, bad[1] if bad else ""),
+                           loc=f.loc(bad[0]) if bad else f.loc(cst), sample={"argument": raw, "converted_into": sorted(attrs)})
+    if n < 10:
+        raise AnalysisError("only %d converting setters found (10 confirmed)" % n)
+
+
+def rule_U16(run, prog, always=None):
+    """`with energy_units("int"): v = obj.X` reads a units-managed property in internal units.  Assigning v (or something
+    computed from it) to a units-managed property of the same object after the block has closed hands an internal number to
+    a setter that takes it in the current units: it is converted a second time.  The assignment belongs inside the block."""
+    from ..loader import parents_map
+    from .. import unitflow
+    rid = "C05-U16"
+    managed = set()
+    for cls in prog.all_classes():
+        managed |= set(unitflow.converted_attributes(prog, cls))
+    n = 0
+    for f in prog.all_functions():
+        if ".tests." in f.qualname or ".wizard." in f.qualname:
+            continue
+        pm = parents_map(f.node)
+        src = {}      # local name -> receiver text
+        for st in walk_no_nested(f.node):
+            if isinstance(st, ast.Assign) and isinstance(st.targets[0], ast.Name) and unitflow.in_int_context(pm, st):
+                for x in ast.walk(st.value):
+                    if isinstance(x, ast.Attribute) and x.attr in managed and isinstance(x.ctx, ast.Load) and norm(x.value) != "self":
+                        src[st.targets[0].id] = norm(x.value)
+                    if isinstance(x, ast.Attribute) and x.attr in managed and isinstance(x.ctx, ast.Load) and norm(x.value) == "self":
+                        src[st.targets[0].id] = "self"
+        if not src and not (always is not None and always(f)):
+            continue
+        n += 1
+        prog.consulted.add(f.relpath)
+        bad = None
+        for st in walk_no_nested(f.node):
+            if isinstance(st, ast.Assign) and not unitflow.in_int_context(pm, st):
+                for t_ in st.targets:
+                    if isinstance(t_, ast.Attribute) and t_.attr in managed:
+                        recv = norm(t_.value)
+                        used = [x.id for x in ast.walk(st.value) if isinstance(x, ast.Name) and x.id in src and src[x.id] == recv]
+                        if used:
+                            bad = (st, used[0], recv, t_.attr)
+        run.obligation(rid, f.short, bad is None, key="internal-value-into-managed-setter",
+                       message="%s reads %s of %s under internal units and assigns it to %s.%s after the block: the setter takes its value "
+                               "in the current units, so under a units context the internal number is converted once more"
+                               % (f.short, bad[1] if bad else "", bad[2] if bad else "", bad[2] if bad else "", bad[3] if bad else ""),
+                       loc=f.loc(bad[0]) if bad else f.loc(f.node))
+    if n < 1:
+        raise AnalysisError("no function reads a managed property under internal units into a local")
 
 
 def rule_U14(run, prog):
